@@ -296,6 +296,8 @@ def run(ctx):
     r5.check(not bad_rng and n_rng >= 70, "range[all parameter subsets, orders, typings]",
              "bind type is decimal iff some parameter is fractional (else the table's int); start/end/step default to 1/10/1", pr.loc(),
              why_fail="; ".join(f"{p} -> {w}" for p, w in bad_rng[:3]))
+    from ..rowloop import type_branch_obligations
+    type_branch_obligations(ctx, r5, "C05.R5")
     rules.append(r5)
     from .c13 import COLUMN_SETS, column_order_rule
     rules.append(column_order_rule(ctx, "C05", "C05.R6", {k: v for k, v in COLUMN_SETS.items() if "message" in k or "bind::" in k}))
